@@ -889,6 +889,30 @@ def progress_fuels(ops, obs):
     return out
 
 
+def dag_fuels(ops, obs):
+    """The explicit fuel of Lean `terminates_if_dag` for every evolve_until of a history whose callbacks schedule only
+    callbacks of strictly larger id (any delay: zero, sub-window, negative; entry-only): with B = most children of one
+    callback and N = number of ids, fuel = sum over the queued entries of (B+1)^(N - id), plus one.  None when the
+    history does not qualify (or has no children at all)."""
+    if any(op[0] in ('guard', 'raise', 'nest', 'axis') for op in ops) or not obs or len(obs) != sum(1 for op in ops if op[0] == 'evolve'):
+        return None
+    kids = {int(op[1]): op[2] for op in ops if op[0] == 'kids'}
+    if not kids or any((len(k) > 2 and k[2] == 'clock') or int(k[1]) <= i for i, l in kids.items() for k in l):
+        return None
+    N = 1 + max([int(k[1]) for l in kids.values() for k in l] + [int(op[2]) for op in ops if op[0] == 'add'] + list(kids))
+    B = max(len(l) for l in kids.values())
+    fired, out = set(), []
+    for o in obs:
+        if o['status'] not in ('ok', 'value'):
+            return None
+        f = sum((B + 1) ** (N - i) for (t, c, i) in o['scheduled'][:o['n_sched0']] if (t, c) not in fired) + 1
+        if f > GEOM_CAP:
+            return None
+        out.append(f)
+        fired |= set((e[1], e[2]) for e in o['events'] if e[0] == 'F')
+    return out
+
+
 def model_lines(ops, fuels=None, obs=None):
     """The history as the CALLER's program (Lean: `ROp`, Model/SchedulerRef.lean): a time handed over as a caller-owned
     array is a reference to a cell (`cell k x` = the caller writes x into its array k; `addref` / `evolveref` hand the
@@ -1313,6 +1337,7 @@ def run(ctx):
     observations = []
     tight = []
     n_tight = ctx.scale(150, 1500)
+    n_dag = [0]
     for style, ops in hist:
         obs = check_history(ctx, style, ops)
         if clock_relative(ops):
@@ -1326,11 +1351,19 @@ def run(ctx):
         # the same history once more on exactly the fuel of evolve_total_of_progress (when its hypotheses hold): the
         # model must return (not run out of fuel) and print the same lines, i.e. the real unbounded loop's run
         pf = progress_fuels(ops, obs)
-        if pf is not None and len(tight) < n_tight:
+        if pf is not None and len(tight) - n_dag[0] < n_tight:
             lines2, idx2 = model_lines(ops, fuels=pf)
             base2 = len(all_lines)
             all_lines += lines2
-            tight.append((ops, obs, [base2 + i for i in idx2], pf))
+            tight.append((ops, obs, [base2 + i for i in idx2], pf, 'evolve_total_of_progress'))
+        # ... and on the fuel of terminates_if_dag (children only towards larger ids, any delay)
+        df = dag_fuels(ops, obs)
+        if df is not None and n_dag[0] < n_tight:
+            n_dag[0] += 1
+            lines2, idx2 = model_lines(ops, fuels=df)
+            base2 = len(all_lines)
+            all_lines += lines2
+            tight.append((ops, obs, [base2 + i for i in idx2], df, 'terminates_if_dag'))
     eps_line = len(all_lines)
     all_lines.append('C20 eps %s' % (rat(consts[0]) if len(consts) == 1 else '0'))
     out = ctx.model(all_lines)
@@ -1338,14 +1371,15 @@ def run(ctx):
     if len(consts) != 1 or out[eps_line] != 'ok':
         ctx.disagree('C20 eps', {'impl': 'float literals of DynamicOpticalSystem.evolve_until: %r' % (consts,),
                                  'model': out[eps_line] + ' (eps of Model/Scheduler.lean)'})
-    for ops, obs, idx2, pf in tight:
-        ctx.count('histories_rerun_on_the_fuel_of_evolve_total_of_progress')
-        ctx.count('progress_fuel_total', sum(pf))
-        ctx.count('progress_callbacks_total', sum(1 for o in obs for e in o['events'] if e[0] == 'F'))
+    for ops, obs, idx2, pf, thm in tight:
+        ctx.count('histories_rerun_on_the_fuel_of_' + thm)
+        pre_ = 'progress' if thm == 'evolve_total_of_progress' else 'dag'
+        ctx.count(pre_ + '_fuel_total', sum(pf))
+        ctx.count(pre_ + '_callbacks_total', sum(1 for o in obs for e in o['events'] if e[0] == 'F'))
         for o, i, f in zip(obs, idx2, pf):
             ctx.traces_validated += 1
             if real_line(o) != out[i]:
-                ctx.disagree('C20 evolve on the fuel of evolve_total_of_progress',
+                ctx.disagree('C20 evolve on the fuel of ' + thm,
                              {'ops': ops, 'T': o['T'], 'fuel': f, 'impl': real_line(o), 'model': out[i]})
                 break
     for (style, ops, obs), idx in zip(observations, index):
